@@ -169,6 +169,15 @@ def run(F, rep):
         lpp = [l for l in g.walk() if l.get('k') == 'For']
         rep.check(bool(lpp) and 'componentCount()' in render(role(lpp[0], 'cond')), 'C19.L1', '%s|tree' % g.short, g.where(), 'children are not traversed', 'children traversed (stops only once an unlinked unit is found)')
 
+    # ------------------------------------------------------------------ I4: what "permits" means
+    rep.rule('C19.I4', 'Variable::permitsInterfaceType decides by comparing whole strings (the stored value equals the required one or is public_and_private): no substring search, '
+                       'which would let an invalid stored value such as "public,private" permit everything and make fixVariableInterfaces leave it in place')
+    for g in F.funcs.values():
+        if g.qname == 'libcellml::Variable::permitsInterfaceType':
+            sub = [c for c in g.walk() if c.get('k') == 'Call' and c.get('mc') and (c.get('cls') or '').startswith('std::basic_string') and c.get('fn') in ('find', 'rfind', 'find_first_of', 'substr', 'compare', 'starts_with', 'ends_with')]
+            eqs = [c for c in g.walk() if (c.get('k') == 'Call' and c.get('opc') == '==') or (c.get('k') == 'Bin' and c.get('op') == '==')]
+            rep.check(not sub and bool(eqs), 'C19.I4', '%s/%d' % (g.short, len(g.params)), g.where(), '%s decides with %s' % (g.short, sorted({c['fn'] for c in sub}) or 'no equality comparison'), 'whole-string comparisons only')
+
 
 def _exits_after(f, loop, call):
     """Is the removal followed by leaving the loop (break/return) on every path?"""
